@@ -271,18 +271,19 @@ func init() {
 					}
 					// reads, writes and conversions: every zero-length buffer (incl. capacity > 0)
 					for t2 := 0; t2 < dyn.NB; t2++ {
+						// conversions: all 169 instantiations on every degenerate shape
+						for _, p := range []string{"same", "normal"} {
+							add("conv-to", func(cs *c20Case) { cs.T2, cs.Partner = tn(t2), p })
+							add("conv-from", func(cs *c20Case) { cs.T2, cs.Partner = tn(t2), p })
+						}
 						if t2 != t && !(sh.C == 0 && sh.K == 0 && sh.L == 0) && t2 != dyn.Float64 && t2 != dyn.Int8 {
-							continue // all 169 pairs at the zero allocator; same type + two partners elsewhere
+							continue // reads/writes: all 169 pairs at the zero allocator; same type + two partners elsewhere
 						}
 						for n := 0; n <= 3; n++ {
 							add("write", func(cs *c20Case) { cs.T2, cs.N = tn(t2), n })
 							add("read", func(cs *c20Case) { cs.T2, cs.N = tn(t2), n })
 							add("wstriped", func(cs *c20Case) { cs.T2, cs.N = tn(t2), n })
 							add("rstriped", func(cs *c20Case) { cs.T2, cs.N = tn(t2), n })
-						}
-						for _, p := range []string{"same", "normal"} {
-							add("conv-to", func(cs *c20Case) { cs.T2, cs.Partner = tn(t2), p })
-							add("conv-from", func(cs *c20Case) { cs.T2, cs.Partner = tn(t2), p })
 						}
 					}
 				}
@@ -291,7 +292,7 @@ func init() {
 			c.Sample(cases[3])
 			c.Sample(cases[len(cases)/3])
 			c.Sample(cases[len(cases)-1])
-			c.Set("rule", "ChannelLength(n,0) for n in 0..5; every allocator with Channels, Length, Capacity in 0..3, L<=K and at least one of them 0 (incl. the zero value) x 13 element types x {shape methods, Slice(0,0), Channel(c) shape methods, pool Get/AppendSample/Put twice, AppendSample x3 (no storage), Append of an empty buffer of capacity 0..2, Write/Read/WriteStriped/ReadStriped with slices of length 0..3, every conversion into and out of it against an equally degenerate and a normal 2-frame partner}; slice/partner element types: all 13 at the zero allocator, same type + int8 + float64 elsewhere; oracle: no panic, lengths/capacities 0 where stated, every returned count 0, caller slices and partner buffers untouched; all cases distinct and non-trivial")
+			c.Set("rule", "ChannelLength(n,0) for n in 0..5; every allocator with Channels, Length, Capacity in 0..3, L<=K and at least one of them 0 (incl. the zero value) x 13 element types x {shape methods, Slice(0,0), Channel(c) shape methods, pool Get/AppendSample/Put twice, AppendSample x3 (no storage), Append of an empty buffer of capacity 0..2, Write/Read/WriteStriped/ReadStriped with slices of length 0..3, every conversion into and out of it (all 169 instantiations) against an equally degenerate and a normal 2-frame partner}; slice element types for reads/writes: all 13 at the zero allocator, same type + int8 + float64 elsewhere; oracle: no panic, lengths/capacities 0 where stated, every returned count 0, caller slices and partner buffers untouched; all cases distinct and non-trivial")
 			c.Assume("Sample/SetSample have no valid index on these buffers and are not called")
 		},
 		RunCase: func(c *core.Ctx, raw json.RawMessage) []F { return c20Run(decode[c20Case](raw)) },
